@@ -536,12 +536,14 @@ class SimulationBuilder:
             self.init_variable_values(entity, variables_json, instance_id)
 
         if persons_to_allocate:
-            entity_ids = entity_ids + list(persons_to_allocate)
-            for person_id in persons_to_allocate:
+            # Each unallocated person gets a new entity of their own, after
+            # the declared ones (a person may bear the id of a declared entity)
+            unallocated_persons = list(persons_to_allocate)
+            first_new_index = len(entity_ids)
+            entity_ids = entity_ids + unallocated_persons
+            for offset, person_id in enumerate(unallocated_persons):
                 person_index = persons_ids.index(person_id)
-                self.memberships[entity.plural][person_index] = entity_ids.index(
-                    person_id,
-                )
+                self.memberships[entity.plural][person_index] = first_new_index + offset
                 self.roles[entity.plural][person_index] = entity.flattened_roles[0]
             # Adjust previously computed ids and counts
             self.entity_ids[entity.plural] = entity_ids
